@@ -25,6 +25,10 @@ GETITEM = 1  # Text.__getitem__(int) drops the base style, and all spans for a n
 DIVIDE_ORDER = 1  # Text.divide re-orders spans through its value-keyed `order` dict (a split remainder equal to a later span)
 ALIGN_NEG = 1  # Text.align pads by a negative excess (text wider than the width): pad_left shifts the spans off their characters
 FLAGS = "".join(str(x) for x in (CTOR_LEN, CROP_ENDS, STYLIZE_NEG, GETITEM, DIVIDE_ORDER, ALIGN_NEG))
+import os as _os
+
+# development aid only (used to validate pending_fixes against a patched checkout): VERIF_C05_FLAGS=000000 VERIF_REPO=<worktree>
+FLAGS = _os.environ.get("VERIF_C05_FLAGS", FLAGS)
 
 STYLES = L.STYLE_NAMES[1:7]
 CHARS = ["a", "b", "c", " ", " ", "\t", "\n", "あ", "̀", "\r", "\x08", "\x0b", "\x0c", "\x07", "…", "x"]
@@ -64,7 +68,12 @@ def build(spec):
     from rich.text import Span, Text
 
     s, base, spans, overflow, tab_size = spec
-    t = Text(s, style=base, spans=[Span(a, b, st) for a, b, st in spans], overflow=overflow, tab_size=tab_size)
+    # attributes that do not influence the characters or styles, varied so that copy / blank_copy / divide / join
+    # are compared on non-default values too (a pure function of the spec, so histories replay)
+    justify = [None, "left", "center", "full", "right"][len(s) % 5]
+    no_wrap = [None, True, False][len(spans) % 3]
+    end = ["\n", "", "x"][(len(s) + len(spans)) % 3]
+    t = Text(s, style=base, spans=[Span(a, b, st) for a, b, st in spans], justify=justify, overflow=overflow, no_wrap=no_wrap, end=end, tab_size=tab_size)
     return t, L.ref_new(s, base, spans, overflow, tab_size)
 
 
@@ -90,6 +99,9 @@ REGEXES = [
     (r"\t|あ", "s6", ""),
     (r"$", "s2", ""),
 ]
+
+
+WORDS = [(["a", "b "], "s1", True), (["A", "x"], "s2", False), (["\t", "ab"], "s3", True)]
 
 
 def gen_op(rng, n):
@@ -149,7 +161,7 @@ def gen_op(rng, n):
     if k == "stylize":
         return (k, rng.choice(STYLES), rng.choice([0, 0, gen_int(rng, n)]), rng.choice([None, None, gen_int(rng, n)]))
     if k == "highlight":
-        return (k, rng.randrange(len(REGEXES)))
+        return (k, rng.randrange(len(REGEXES) + len(WORDS)))
     if k == "copy_styles":
         return (k, gen_spans(rng, n, rng.choice([0, 1, 2, 3])))
     if k == "set_plain":
@@ -239,7 +251,7 @@ def judge(sink, site, t, r, classify, neg_before=False, base_lost=False):
         # the text's own base style already differed from the reference's: `text[i]` dropped it at an earlier step
         # where a covering span hid the loss; it shows now that new characters arrive under the base style.
         finding = "getitem-int-loses-style"
-    if finding is None and neg_before and kind in ("style", "render-raises", "render-chars"):
+    if finding is None and neg_before and kind in ("style", "style-order", "render-raises", "render-chars"):
         # the text already carried a span with a negative start (only `stylize` creates one): the styles move
         # onto other characters as soon as the spans are shifted.  Same defect, seen one step later.
         finding = "stylize-negative-start"
@@ -502,9 +514,18 @@ def step(sink, t, r, op, first=False):
         judge_("stylize", t, r, lambda kind: "stylize-negative-start" if a < -n and kind.startswith("render") else None)
         return t, r
     if k == "highlight":
-        pattern, st, prefix = REGEXES[op[1]]
+        import re as _re
+
         nb = len(t._spans)
-        res = py_ans(lambda: t.highlight_regex(pattern, st, style_prefix=prefix))
+        if op[1] >= len(REGEXES):
+            words, st, cs = WORDS[op[1] - len(REGEXES)]
+            pattern, prefix = "|".join(_re.escape(w) for w in words), ""
+            if not cs:
+                pattern = "(?i)" + pattern
+            res = py_ans(lambda: t.highlight_words(words, st, case_sensitive=cs))
+        else:
+            pattern, st, prefix = REGEXES[op[1]]
+            res = py_ans(lambda: t.highlight_regex(pattern, st, style_prefix=prefix))
         if res[0] != "ok":
             raise Failure("highlight_regex", None, "raised " + res[1])
         new = [tuple(sp) for sp in t._spans[nb:]]
@@ -556,7 +577,7 @@ def run_history(sink, spec, ops):
     t, r = build(spec)
     sink.case(
         "text_new",
-        [L.enc_fields(s, 0, base, spans, None, overflow, None, "\n", tab_size)],
+        [L.enc_fields(s, 0, base, spans, t.justify, overflow, t.no_wrap, t.end, tab_size)],
         L.ans_text(t),
         shape="ctl" if L.strip_ctl(s) != s else "plain",
         sample=f"Text({s!r}, style={base!r}, spans={spans!r})" if sink.ctx else None,
@@ -661,6 +682,10 @@ def run(ctx):
                 for op in ops1:
                     explore(ctx, spec, [op])
                     n_sys += 1
+    for s in small_strings:
+        t0, _r0 = build((s, "", [], None, 8))
+        ctx.check(py_ans(lambda: t0[::2]) == ("err", "TypeError") and py_ans(lambda: t0[::-1]) == ("err", "TypeError"), "__getitem__(slice)", s,
+                  "a slice with a step must raise TypeError (documented: not supported)")
     ctx.note("systematic_single_ops", n_sys)
     ctx.flush()
 
@@ -683,7 +708,7 @@ def run(ctx):
     ctx.flush()
 
     # 3. histories
-    n_hist = 2500 if ctx.quick else 60000
+    n_hist = 6000 if ctx.quick else 120000
     lens = 0
     for _ in range(n_hist):
         spec = gen_spec(rng, ctl=rng.random() < 0.3)
@@ -741,3 +766,36 @@ def replay(ctx, case):
         print("re-run `./check C05` (generators are seeded: VERIF_SEED=%s)" % case.get("seed"))
         return False
     return True
+
+
+MANIFEST = {
+    "text": "Lean 4 theorems (Props/C05.lean; no bound on string length, number of spans or number of operations) about a "
+    "statement-by-statement model of rich/text.py (Model/Text.lean: Span, Text with the separately stored _length, every mutator, "
+    "divide with its value-keyed order dict, render's event sort + style-id stack) and of control.strip_control_codes (table "
+    "re-translated from rich/control.py every run): the state invariant Inv (len() = len(plain), no strippable control code, every span "
+    "0 <= start <= end <= len) holds after construction for every string and is preserved by every operation and hence by every history "
+    "(inv_init, inv_step, inv_history, step_total); per-operation refinement view(op t) = <list operation>(view t) - characters, order and "
+    "the ordered list of style names of every survivor - for construction, copy, append(str), append(Text)/append_text, the plain setter, "
+    "pad_left, pad_right, right_crop (every amount >= 0), set_length, text[i], stylize (exact slice semantics for negative / out-of-range "
+    "offsets), copy_styles / highlighters; styling-only operations never change characters or len() (any arguments). Six defects of rich "
+    "9.10.0 are carried as model variant flags with machine-checked witnesses (old_* theorems). "
+    "Tie: every modelled function (27 driver entry points incl. divide, split, slices, join, assemble, expand_tabs, truncate, align, "
+    "rstrip_end, render) is compared state-by-state (plain, _length, spans, style, attributes and the render() segments) with real "
+    "rich.text.Text objects on ~70k (quick) / ~1M (thorough) generated requests per run; independently, a reference styled string "
+    "(list of (char, style names)) undergoes 'the same operation on an ordinary string' and is compared with plain / len() / render() of "
+    "the real object after every step of every history (bounded-exhaustive single operations with arguments inside, at and beyond both "
+    "ends + seeded random histories of 1..12 operations over 27 operation kinds, shrunk on failure).",
+    "note": "PARTIAL: the refinement/invariant theorems for divide (and what is built on it: split, text[a:b], expand_tabs), join/assemble "
+    "(folds of appendText), truncate/align/rstrip (instances of the proved plain-setter theorem) and render_view (render = view under Inv) "
+    "are stated in Props/C05.lean as open obligations, not proved; for these the evidence is the correspondence plus the direct evaluation. "
+    "Trusted: Lean kernel; axioms propext/Classical.choice/Quot.sound; translator harness/gen/text_tables.py (STRIP_CONTROL_CODES, and "
+    "the running CPython's str.isspace set, cross-checked against regex \\s and str.rstrip); the correspondence harness; "
+    "_text fragments are abstracted to their concatenation; styles are opaque names and 'same effective style' in the direct evaluation is "
+    "judged in the free right-regular band over names (the laws every field of Style.__add__ obeys: '' identity, s+s=s, x+y+x=y+x) - the "
+    "Lean theorems use the stronger free monoid (exact ordered lists); cell widths are rich.cells' (C13). "
+    "Domain (outside it only model-vs-code is compared): constructor spans inside the stripped text; counts/widths >= 0; divide offsets "
+    "non-decreasing within the text; split separators without a proper border (rich itself only uses single characters; 'aaa'.split('aa') "
+    "loses a character - reported, not adopted); no strip-control characters through append_tokens / pad character / plain setter (rich does "
+    "not strip there); Text.style is not None; tab size >= 1; negative _length states (only reachable through the right_crop defect) end a history.",
+    "design_ref": "DESIGN.md section 7, C05; pre-finding F1 (section 8)",
+}
